@@ -60,7 +60,7 @@ CLAIMED["C15"] = ("Theorems C15_* (coq/Properties/C15.v): Transfer.simplify retu
                   "DESIGN.md §4 C15")
 CLAIMED["C17"] = ("Theorems C17_* (coq/Properties/C17.v): conform and every append rule return a SELECT marker, conform is idempotent, the "
                   "compound flag holds iff the skip target is a chain, and C17_conform_preserves_rows: conforming a raw tree (leaves, "
-                  "transfers, materializations, any unary operations, chains, joins of operands that have columns, conformed subtrees) "
+                  "transfers, materializations, any unary operations, chains, joins of any operands - the join-identity elision re-entering conform included -, conformed subtrees whose markers are good) "
                   "returns a relation with the same rows as a list, the same columns and engine, all of whose markers are coherent. Marker "
                   "coherence is also evaluated on real trees per run (known finding F13: apply_skip's simplification can swallow an unused "
                   "calculation, witness in Coq), and raw trees are conformed by the real engine, executed on SQLite under both scan orders "
@@ -76,7 +76,7 @@ CLAIMED["C03"] = ("Theorems C03_backtrack_sound, C03_apply_with_options_sound, C
                   "engine, and require_preferred_engine refuses with EngineError when the operation cannot be placed there. Theorems "
                   "C03_join_backtrack_sound / C03_join_with_options_sound: the same for Relation.join (a PartialJoin moved upstream to the "
                   "transfer that left the operand's engine, or the target transferred, or the call refused), under the documented ColumnTag "
-                  "contract. Theorem C03_programs_over_both_engine_kinds_denote_their_specification: whole programs of factory calls over "
+                  "contract; C03_join_in_one_engine_sound: a join of two relations of one engine, for every pair of operands (the join identity included), with no side condition. Theorem C03_programs_over_both_engine_kinds_denote_their_specification: whole programs of factory calls over "
                   "any number of SQL and iteration engines (unary calls with any preferred-engine option, joins in one engine "
                   "or across engines, chains, materializations, transfers) build trees that denote the program's specification and have "
                   "the shape the call-by-call theorems require, so these compose. Excluded: finding F2 (projection past a Deduplication, pinned by the suite; known finding), a SQL target joined "
@@ -119,11 +119,11 @@ CLAIMED["C09"] = ("Theorems C09_* (coq/Properties/C09.v), decided by vm_compute 
                   "nature: aliasing outside the enumerated sites is not exhibited by the model.", "DESIGN.md §4 C09")
 CLAIMED["C02"] = ("Theorems C02_* (coq/Properties/C02.v), layer (a): Select.apply_skip, every rule of _append_unary_to_select (calculation, "
                   "deduplication, projection incl. push-down into UNION operands, selection, slice, sort; every slot state), the chain rule "
-                  "and the join rule of _append_binary_to_select (marker stripping with the hidden-column guard) return a conformed relation "
+                  "and the join rule of _append_binary_to_select (marker stripping with the hidden-column guard; every pair of operands, the join-identity elision with its re-entry into conform included) return a conformed relation "
                   "whose denotation is the applied operation's — list equality, all parameters, all row lists; and "
                   "C02_sql_program_denotes_its_specification: every relation a single-engine SQL program of factory calls returns is "
-                  "conformed and denotes the program's specification. Not proved: joins with a zero-column (join-identity) operand, "
-                  "preferred-engine options, and layer (b) (to_payload/_select_to_executable and the database), which are decided per run "
+                  "conformed and denotes the program's specification. Not proved: "
+                  "preferred-engine options (see C03's program theorem for those), and layer (b) (to_payload/_select_to_executable and the database), which are decided per run "
                   "by executing the compiled SQL on a real SQLite under both scan orders and comparing with the specification (forced "
                   "classes for every repaired defect and every seeded change). Partial.", "DESIGN.md §4 C02")
 CLAIMED["C08"] = ("Theorem C08_accepted_iteration_program_executes: accepted iteration programs execute (to the specification's rows). "
